@@ -121,6 +121,10 @@ func genC02(r *gen.Rand, maxLayers int) *C02Case {
 				doc["meta"] = map[string]any{"x": 1 + i%2}
 			case 1:
 				doc["meta"] = "flat"
+			default:
+				// the same information under a key that contains a dot: an
+				// ordinary key, not a path into meta
+				doc["meta.x"] = 1 + i%2
 			}
 		}
 		if bigIDs {
@@ -251,6 +255,7 @@ func genC02(r *gen.Rand, maxLayers int) *C02Case {
 				delete(patch, "tags")
 				delete(patch, "ports")
 				delete(patch, "meta")
+				delete(patch, "meta.x")
 				if len(patch) == 0 {
 					patch["z"] = l
 				}
@@ -265,6 +270,9 @@ func genC02(r *gen.Rand, maxLayers int) *C02Case {
 					map[string]any{"name": "n0", "$invert": true},
 					map[string]any{"meta": "flat", "$invert": true},
 					map[string]any{"meta": map[string]any{"$invert": true, "nope": 1}},
+					map[string]any{"meta.x": 1},
+					map[string]any{"meta.x": 2},
+					map[string]any{"meta.x": 1, "$invert": true},
 				})
 			} else if listAttrs && r.Chance(0.5) {
 				// list patterns: every pattern entry must match SOME element —
